@@ -204,6 +204,33 @@ fn dependent_targets() {
     chk!("try_rebind!((x, _, x, _, x, x))", k5(), Ok::<u64, u8>(6));
 }
 
+// ---- typed `let` components whose annotation is a coercion target of the component type: the binding has the
+// annotated type, exactly like `let x: T = t.N;` (unsizing, &mut -> &, fn item -> fn pointer, &T -> &dyn Trait)
+fn coercing_annotations() {
+    use std::any::type_name_of_val as tn;
+    use std::mem::size_of_val as sz;
+    static ARR: [u8; 4] = [1, 2, 3, 4];
+    fn inc(x: u8) -> u8 { x + 1 }
+    trait Kind { fn kind(&self) -> &'static str; }
+    impl Kind for &[u8] { fn kind(&self) -> &'static str { "slice" } }
+    impl Kind for &[u8; 4] { fn kind(&self) -> &'static str { "array" } }
+    fn src() -> Result<(&'static [u8; 4], u32), u8> { Ok((&ARR, 7)) }
+    fn k1() -> Result<(&'static str, &'static str, usize, u32), u8> { let n; konst::try_rebind!{(let b: &[u8], n) = src()} Ok((b.kind(), tn(&b), sz(&b), n)) }
+    fn s1() -> Result<(&'static str, &'static str, usize, u32), u8> { let n; let t = src()?; let b: &[u8] = t.0; n = t.1; Ok((b.kind(), tn(&b), sz(&b), n)) }
+    chk!("try_rebind!((let b: &[u8], n)) on (&[u8; 4], u32): unsizing annotation", k1(), s1());
+    fn k2() -> (&'static str, &'static str, usize, u32) { let mut r = ("", "", 0, 0); konst::rebind_if_ok!{(let b: &[u8], let n) = src() => r = (b.kind(), tn(&b), sz(&b), n);} r }
+    chk!("rebind_if_ok!((let b: &[u8], let n)) on (&[u8; 4], u32): unsizing annotation", Ok::<_, u8>(k2()), s1());
+    fn k3() -> Result<(&'static str, usize), u8> { konst::try_rebind!{(let b: &[u8]) = Ok::<&'static [u8; 4], u8>(&ARR)} Ok((tn(&b), sz(&b))) }
+    fn s3() -> Result<(&'static str, usize), u8> { let t = Ok::<&'static [u8; 4], u8>(&ARR)?; let b: &[u8] = t; Ok((tn(&b), sz(&b))) }
+    chk!("try_rebind!((let b: &[u8])) single typed let: unsizing annotation", k3(), s3());
+    fn k4() -> Result<(&'static str, usize, u8), u8> { konst::try_rebind!{(let _a, let f: fn(u8) -> u8, _) = Ok::<(u8, _, u8), u8>((1, inc, 2))} Ok((tn(&f), sz(&f), f(4))) }
+    fn s4() -> Result<(&'static str, usize, u8), u8> { let t = Ok::<(u8, _, u8), u8>((1, inc, 2))?; let f: fn(u8) -> u8 = t.1; Ok((tn(&f), sz(&f), f(4))) }
+    chk!("try_rebind!((let _a, let f: fn(u8) -> u8, _)) on a fn item: pointer annotation", k4(), s4());
+    fn k5() -> Result<(&'static str, usize, String), u8> { konst::try_rebind!{(let d: &dyn std::fmt::Debug, let m: &u8) = Ok::<(&'static u8, &'static mut u8), u8>((&ARR[1], Box::leak(Box::new(5u8))))} Ok((tn(&d), sz(&d), format!("{:?}{}{}", d, tn(&m), m))) }
+    fn s5() -> Result<(&'static str, usize, String), u8> { let t = Ok::<(&'static u8, &'static mut u8), u8>((&ARR[1], Box::leak(Box::new(5u8))))?; let d: &dyn std::fmt::Debug = t.0; let m: &u8 = t.1; Ok((tn(&d), sz(&d), format!("{:?}{}{}", d, tn(&m), m))) }
+    chk!("try_rebind!((let d: &dyn Debug, let m: &u8)) on (&u8, &mut u8): trait-object and reborrow annotations", k5(), s5());
+}
+
 // ---- min / max with distinguishable identity
 #[derive(Debug, Clone, Copy, PartialEq, Eq)]
 struct Keyed { key: u8, id: u8 }
@@ -390,7 +417,7 @@ def run(out, tier, seed):
         text = STATIC + REBIND_PRELUDE + "".join(tuple_src(k) for k in range(1, 7)) + "".join(fns)
         text += "fn main() {\n    std::panic::set_hook(Box::new(|_| {}));\n"
         if bi == 0:
-            text += "    options_and_results();\n    argument_expressions();\n    tries();\n    dependent_targets();\n    minmax();\n"
+            text += "    options_and_results();\n    argument_expressions();\n    tries();\n    dependent_targets();\n    coercing_annotations();\n    minmax();\n"
         text += "".join(calls)
         text += "    println!(\"N\\t{}\", unsafe { EVALS });\n}\n"
         srcs.append(cx.write("c19_%03d.rs" % bi, text))
